@@ -70,6 +70,20 @@ def requests(cfg, rng, n, tier, part, nparts, st):
             if rng.random() < 0.3:
                 v = v * base ** rng.randrange(0, 3) + rng.randrange(base)
             v %= cfg.mod
+        elif rr < 0.44:
+            # some bnum digits equal to the division chunk base r^p of this digit size (or a neighbour / another power of r): the running
+            # quotient then has a digit equal to the divisor of the short division
+            p = chunk_power(cfg, r) if r & (r - 1) else 1
+            v = 0
+            for i in range(cfg.n):
+                c = rng.random()
+                if c < 0.35:
+                    d = (r ** rng.choice((p, p, max(1, p - 1), 1))) + rng.choice((-1, 0, 0, 0, 1))
+                elif c < 0.5:
+                    d = 0
+                else:
+                    d = rng.getrandbits(cfg.dbits)
+                v |= (d % cfg.B) << (cfg.dbits * i)
         elif rr < 0.5:
             cap = len(to_digits(cfg.mask, r))
             v = (r ** rng.randrange(0, cap + 1) + rng.choice((-1, 0, 0, 1))) % cfg.mod
